@@ -80,7 +80,9 @@ def small_int_data(op):
         return b""
     if op == OP_1NEGATE:
         return b"\x81"
-    return bytes([op - OP_1 + 1])
+    if OP_1 <= op and op <= OP_16:
+        return bytes([op - OP_1 + 1])
+    return b""
 
 
 @spec
